@@ -1,0 +1,14 @@
+//go:build verif && (!amd64 || purego || !gc)
+
+package blake2s
+
+import "errors"
+
+func VerifImpls() []string { return []string{"generic"} }
+
+func VerifSetImpl(name string) error {
+	if name == "" || name == "generic" {
+		return nil
+	}
+	return errors.New("unsupported")
+}
